@@ -446,6 +446,11 @@ func genScenario(r *vf.Run, stage, idx int) *scenario {
 				family = rng.PickS("cache-getmiss", "cache-readerr", "cache-adderr", "status", "cancel", "truncate", "403")
 			}
 		}
+		if kind == "herd" && rng.Chance(1, 3) {
+			// the stalled leader request of the shared flight is cut inside a part after k
+			// bytes; every other request of the phase is answered cleanly
+			family = "leader-truncate"
+		}
 		addPhase(kind, family)
 	}
 	addPhase("verify", "")
@@ -540,6 +545,62 @@ func truncateBody(res *http.Response, pick uint64) {
 	res.Body = &failBody{data: body[:k], err: io.ErrUnexpectedEOF}
 }
 
+// truncateInPart cuts the reply body INSIDE the data of one part (the first part half of
+// the time) after k bytes, k from {1, chunk-1, chunk+1, len-1, random} within 1..len-1, so
+// that some chunk is delivered partially before the stream breaks. A 200/206 single-part
+// body is one part.
+func truncateInPart(res *http.Response, pick uint64, chunk int64) {
+	if res.Body == nil || (res.StatusCode != 200 && res.StatusCode != 206) {
+		return
+	}
+	body, _ := io.ReadAll(res.Body)
+	type span struct{ b, e int }
+	var parts []span
+	if mt, params, err := mime.ParseMediaType(res.Header.Get("Content-Type")); err == nil && strings.HasPrefix(mt, "multipart/") {
+		delim := []byte("--" + params["boundary"])
+		for i := 0; i < len(body); {
+			j := bytes.Index(body[i:], delim)
+			if j < 0 {
+				break
+			}
+			at := i + j + len(delim)
+			if bytes.HasPrefix(body[at:], []byte("--")) {
+				break // closing delimiter
+			}
+			h := bytes.Index(body[at:], []byte("\r\n\r\n"))
+			if h < 0 {
+				break
+			}
+			start := at + h + 4
+			next := bytes.Index(body[start:], append([]byte("\r\n"), delim...))
+			if next < 0 {
+				break
+			}
+			parts = append(parts, span{start, start + next})
+			i = start + next
+		}
+	}
+	if len(parts) == 0 {
+		parts = []span{{0, len(body)}}
+	}
+	p := parts[0]
+	if pick&1 == 1 {
+		p = parts[int((pick>>1)%uint64(len(parts)))]
+	}
+	l := int64(p.e - p.b)
+	cut := p.b
+	if l >= 2 {
+		var ks []int64
+		for _, k := range []int64{1, chunk - 1, chunk + 1, l - 1, 1 + int64((pick>>20)%uint64(l-1)), chunk / 2} {
+			if k >= 1 && k <= l-1 {
+				ks = append(ks, k)
+			}
+		}
+		cut = p.b + int(ks[int((pick>>8)%uint64(len(ks)))])
+	}
+	res.Body = &failBody{data: body[:cut], err: io.ErrUnexpectedEOF}
+}
+
 // permuteParts re-emits a multipart/byteranges body with its parts in another order
 // (every requested range is still delivered, correctly labelled).
 func permuteParts(res *http.Response, pick uint64) {
@@ -615,6 +676,9 @@ func (s *server) script(q *memreg.Request) memreg.Behaviour {
 		fam = []string{"status", "neterr", "truncate", "403", "400", "firstonly", "cancel"}[rng.Intn(7)]
 	}
 	hit := pc.faulty && rng.Intn(100) < pc.spec.PFault
+	if fam == "leader-truncate" {
+		hit = false // the only fault of such a phase is the cut of the stalled leader request
+	}
 
 	// the registry host of a redirecting registry only redirects (or fails)
 	if s.sc.Registry == "cdn" && q.Kind == "blob" {
@@ -660,6 +724,16 @@ func (s *server) script(q *memreg.Request) memreg.Behaviour {
 	// herd: the first data request of the phase waits until every client entered
 	if pc.herdStall != nil && pc.herdArmed.CompareAndSwap(true, false) {
 		b.Stall = pc.herdStall
+		if fam == "leader-truncate" {
+			// The leader of the shared flight gets PART of a chunk and then a broken stream
+			// (single-part, multipart and squashed answers); whoever retries is served
+			// correctly. A retry into the leader's half-advanced writers shows as wrong bytes.
+			pick, c := rng.U64(), s.sc.Chunk
+			b.Mode = []memreg.RangeMode{memreg.Honest, memreg.Honest, memreg.MultipartAlways, memreg.Squash}[rng.Intn(4)]
+			b.MutateResp = func(res *http.Response) { truncateInPart(res, pick, c) }
+			b.Label = "F:leader-truncate"
+			return b
+		}
 	}
 
 	if hit {
